@@ -3,6 +3,7 @@ package c18
 import (
 	"encoding/json"
 	"fmt"
+	"reflect"
 	"testing"
 	"time"
 
@@ -171,5 +172,39 @@ func TestPropQueryResponses(t *testing.T) {
 		}
 		b, _ := json.Marshal(steps)
 		ev.Case(n >= 2 && explicit > 0, evid.Hash("queryresp", coll, string(b)), "query-responses")
+	})
+}
+
+// TestPropParseResultReuse: a client that polls keeps one destination variable and parses
+// every response's result into it. After each ParseResult the destination is what decoding
+// the same results, one after the other, with the standard decoder gives - a null result
+// sets a pointer destination to nil like any other null. (Map destinations are left out: the
+// library leaves a map as it is on a null result, see DESIGN.)
+func TestPropParseResultReuse(t *testing.T) {
+	type item struct {
+		A int      `json:"a"`
+		B string   `json:"b"`
+		C []string `json:"c"`
+	}
+	rapid.Check(t, func(rt *rapid.T) {
+		n := rapid.IntRange(2, 8).Draw(rt, "responses")
+		var dst, ref *item
+		nulls := 0
+		for i := 0; i < n; i++ {
+			text := rapid.SampledFrom([]string{`null`, `null`, `{"a":1}`, `{"a":2,"b":"x"}`, `{"c":["p","q"]}`, `{}`, `{"b":"y","c":[]}`}).Draw(rt, "result")
+			if text == "null" {
+				nulls++
+			}
+			p := resprot.ParseResponse([]byte(`{"result":` + text + `}`))
+			if !p.HasResult() {
+				rt.Fatalf("response %d with result %s is not classified as a result: %+v", i, text, p)
+			}
+			e1 := p.ParseResult(&dst)
+			e2 := json.Unmarshal([]byte(text), &ref)
+			if (e1 == nil) != (e2 == nil) || !reflect.DeepEqual(dst, ref) {
+				rt.Fatalf("response %d: ParseResult of the result %s into a reused *item gives %+v (error %v); decoding the same results in turn gives %+v (error %v)", i, text, dst, e1, ref, e2)
+			}
+		}
+		ev.Case(nulls > 0 && nulls < n, evid.Hash("parseresultreuse", n, nulls), "parse-result-reuse")
 	})
 }
